@@ -1519,9 +1519,11 @@ func (t *tScreen) parseSgrMouse(buf *bytes.Buffer, evs *[]Event) (bool, bool) {
 				// mouse release: the event carries no buttons; the other
 				// buttons of a chord stay down (a release that names no
 				// button releases them all, a wheel report none)
-				if btn&3 == 3 {
+				if btn&0x40 != 0 {
+					// (a wheel code, also 67 with its low bits all set)
+				} else if btn&3 == 3 {
 					t.buttonsdn = 0
-				} else if btn&0x40 == 0 {
+				} else {
 					t.buttonsdn &^= 1 << uint(btn&3)
 				}
 				btn |= 3
@@ -1539,7 +1541,7 @@ func (t *tScreen) parseSgrMouse(buf *bytes.Buffer, evs *[]Event) (bool, bool) {
 					btn |= 3
 					btn &^= 0x40
 				}
-			} else if btn&3 == 3 {
+			} else if btn&3 == 3 && btn&0x40 == 0 {
 				// no button: the legacy way of reporting a release
 				t.buttonsdn, t.buttondn = 0, false
 			} else if !scroll && btn&0x40 == 0 {
